@@ -257,6 +257,29 @@ def random_streams(ctx, n):
                         observed=traces[0][1]))
 
 
+def inductive(ctx):
+    """unbounded counts: `registry = balance` is an inductive invariant of ResourceTracker!Next (Apalache, symbolic):
+    initiation from Init, consecution from any state satisfying it, and a sanity query that must be refuted"""
+    import shutil
+    d = os.path.join(ctx.work, "apalache")
+    os.makedirs(d, exist_ok=True)
+    shutil.copy(os.path.join(tlc.SPECS, "ResourceTracker.tla"), d)
+    shutil.copy(os.path.join(tlc.SPECS, "apalache", "Apa_ResourceTracker.tla"), d)
+    res = {}
+    for name, init, inv, length, want in [("initiation", "Init", "IndInv", 0, "NoError"), ("consecution", "IndInit", "IndInv", 1, "NoError"),
+                                          ("sanity", "IndInit", "SmallCounts", 1, "Error")]:
+        got, tail = tlc.apalache(d, "Apa_ResourceTracker", init, inv, length, timeout=1500)
+        res[name] = got
+        if got == "Unknown":
+            ctx.notes.append("Apalache %s did not conclude (%s)" % (name, tail[-200:].replace("\n", " ")))
+        elif got != want:
+            raise runner.Machinery("Apalache %s of registry = balance: outcome %s, expected %s\n%s" % (name, got, want, tail))
+    ctx.extra["apalache_inductive_invariant"] = res
+    if res.get("initiation") == "NoError" and res.get("consecution") == "NoError":
+        ctx.assumptions.append("registry = balance holds for unbounded counts (inductive invariant discharged by Apalache 0.58 on the request "
+                               "alphabet of specs/apalache/Apa_ResourceTracker.tla)")
+
+
 def run(ctx):
     tlc.stage(ctx.work)
     tlc.sany(ctx.work, "MC_ResourceTracker")
@@ -264,6 +287,7 @@ def run(ctx):
     ctx.require_spec_ok(res, "ResourceTracker properties, exhaustive (quick constants)")
     replay_graph(ctx)
     if ctx.tier == "thorough":
+        inductive(ctx)
         replay_sim(ctx, num=3000, depth=40)
         random_streams(ctx, 6000)
     else:
